@@ -12,7 +12,26 @@ fn main() {
     pdfmon::panicmon::install();
     let run = Run::new(prop, tier, seed);
     match prop {
+        "C01" => pdfmon::props::c01::run(&run),
+        "C02" => pdfmon::props::c02::run(&run),
+        "C03" => pdfmon::props::c03::run(&run),
+        "C04" => pdfmon::props::c04::run(&run),
+        "C05" => pdfmon::props::c05::run(&run),
+        "C06" => pdfmon::props::c06::run(&run),
+        "C07" => pdfmon::props::c07::run(&run),
+        "C08" => pdfmon::props::c08::run(&run),
+        "C09" => pdfmon::props::c09::run(&run),
+        "C10" => pdfmon::props::c10::run(&run),
+        "C11" => pdfmon::props::c11::run(&run),
+        "C12" => pdfmon::props::c12::run(&run),
+        "C13" => pdfmon::props::c13::run(&run),
+        "C14" => pdfmon::props::c14::run(&run),
+        "C15" => pdfmon::props::c15::run(&run),
         "C16" => pdfmon::props::c16::run(&run),
+        "C17" => pdfmon::props::c17::run(&run),
+        "C18" => pdfmon::props::c18::run(&run),
+        "C19" => pdfmon::props::c19::run(&run),
+        "C20" => pdfmon::props::c20::run(&run),
         _ => { eprintln!("unknown property {}", prop); std::process::exit(2); }
     }
     std::process::exit(run.finish());
